@@ -376,6 +376,19 @@ class Check:
         self.obligations = r['obligations']
         self.model_ok = r['model_ok']
         self.build_log = r['log']
+        if self.tier == 'thorough' and all(o['ok'] for o in self.obligations):
+            # independent re-check of the compiled theorems (and everything they depend on)
+            with BuildLock():
+                rc, o, e = sh(['timeout', '1800', 'coqchk', '-silent', '-o', '-Q', '.', 'NV', f'NV.{self.prop}.Props'],
+                              cwd=COQ, timeout=1900)
+            txt = (o + e)
+            m = re.search(r'\* Axioms:(.*?)\* Constants/Inductives relying on type-in-type', txt, flags=re.S)
+            axioms = ' '.join(m.group(1).split()) if m else '<unparsed>'
+            self.extra['coqchk'] = {'rc': rc, 'axioms': axioms,
+                                    'type_in_type': '<none>' in txt.split('type-in-type:')[-1][:30] if 'type-in-type:' in txt else None}
+            self.obligations.append({'name': f'coqchk -o NV.{self.prop}.Props', 'ok': rc == 0,
+                                     'axioms': [] if axioms == '<none>' else [axioms],
+                                     **({'error': txt[-800:]} if rc else {})})
         return r
 
     # ---- counting
